@@ -303,4 +303,496 @@ theorem stake_eq (cfg : Config) (flats : List Validator) (prevEpoch : Nat) (prev
   rw [hm]
   split <;> omega
 
+/-! ### Part C: the validator loop of `AttestationRewardsAndPenalties`, one delta at a time -/
+
+theorem foldl_filter {α β : Type} (p : α → Bool) (f : β → α → β) (l : List α) (b : β) :
+    l.foldl (fun b a => if p a then f b a else b) b = (l.filter p).foldl f b := by
+  induction l generalizing b with
+  | nil => rfl
+  | cons x xs ih =>
+    simp only [List.foldl_cons, List.filter_cons]
+    split <;> simp [ih]
+
+theorem foldl_proj {α β γ : Type} (π : β → γ) (step : β → α → β) (stepπ : γ → α → γ)
+    (h : ∀ b a, π (step b a) = stepπ (π b) a) (l : List α) (b : β) :
+    π (l.foldl step b) = l.foldl stepπ (π b) := by
+  induction l generalizing b with
+  | nil => rfl
+  | cons x xs ih => simp only [List.foldl_cons]; rw [ih, h]
+
+/-- one of the three attestation components for validator `i` -/
+def compStep (base : Nat → Nat) (stakeIncs totalIncs : Nat) (leak : Bool) (attested : Nat → Bool) (d : Deltas) (i : Nat) : Deltas :=
+  if attested i then
+    if leak then (addAtPure d.1 i (base i), d.2)
+    else (addAtPure d.1 i (base i * stakeIncs / totalIncs), d.2)
+  else (d.1, addAtPure d.2 i (base i))
+
+def baseM (cfg : Config) (flats : List Validator) (sq : Nat) (i : Nat) : Nat :=
+  (flats.getD i default).effective_balance * cfg.BASE_REWARD_FACTOR / sq / BASE_REWARDS_PER_EPOCH
+
+theorem rewardsStep_source (cfg : Config) (flats : List Validator) (tI sI gI hI sq fd q : Nat) (leak : Bool)
+    (res : RewardsAndPenalties) (i : Nat) (st : AttesterStatus) :
+    (rewardsStep cfg flats tI sI gI hI sq fd q leak res i st).source =
+      if st.eligible then compStep (baseM cfg flats sq) sI tI leak (fun _ => st.prevSource && st.unslashed) res.source i
+      else res.source := by
+  obtain ⟨dl, pr, ps, pt, ph, cs, ct, ch, un, el⟩ := st
+  cases ps <;> cases pt <;> cases ph <;> cases un <;> cases el <;> cases leak <;> simp [rewardsStep, compStep, baseM]
+
+theorem rewardsStep_target (cfg : Config) (flats : List Validator) (tI sI gI hI sq fd q : Nat) (leak : Bool)
+    (res : RewardsAndPenalties) (i : Nat) (st : AttesterStatus) :
+    (rewardsStep cfg flats tI sI gI hI sq fd q leak res i st).target =
+      if st.eligible then compStep (baseM cfg flats sq) gI tI leak (fun _ => st.prevTarget && st.unslashed) res.target i
+      else res.target := by
+  obtain ⟨dl, pr, ps, pt, ph, cs, ct, ch, un, el⟩ := st
+  cases ps <;> cases pt <;> cases ph <;> cases un <;> cases el <;> cases leak <;> simp [rewardsStep, compStep, baseM]
+
+theorem rewardsStep_head (cfg : Config) (flats : List Validator) (tI sI gI hI sq fd q : Nat) (leak : Bool)
+    (res : RewardsAndPenalties) (i : Nat) (st : AttesterStatus) :
+    (rewardsStep cfg flats tI sI gI hI sq fd q leak res i st).head =
+      if st.eligible then compStep (baseM cfg flats sq) hI tI leak (fun _ => st.prevHead && st.unslashed) res.head i
+      else res.head := by
+  obtain ⟨dl, pr, ps, pt, ph, cs, ct, ch, un, el⟩ := st
+  cases ps <;> cases pt <;> cases ph <;> cases un <;> cases el <;> cases leak <;> simp [rewardsStep, compStep, baseM]
+
+theorem contains_uai (vals : List Validator) (atts : List ResolvedAtt) (i : Nat) (flat : Validator) (hf : vals[i]? = some flat) :
+    (unslashed_attesting_indices_of vals atts).contains i = (atts.any (fun a => a.indices.contains i) && !flat.slashed) := by
+  obtain ⟨hlt, _⟩ := List.getElem?_eq_some_iff.mp hf
+  unfold unslashed_attesting_indices_of slashed_of
+  rw [Bool.eq_iff_iff]
+  simp only [List.contains_iff_mem, List.mem_filter, List.mem_range, hlt, true_and, List.getD, hf, Option.getD_some,
+    Bool.and_eq_true]
+
+theorem eligible_filter_eq (flats : List Validator) (prevEpoch : Nat) (prevAtts currAtts : List ResolvedAtt) :
+    (List.range flats.length).filter (fun i => (statusOf flats prevEpoch prevAtts currAtts i).eligible) =
+      eligible_indices_of flats prevEpoch := by
+  unfold eligible_indices_of
+  apply List.filter_congr
+  intro i hi
+  have hlt := List.mem_range.mp hi
+  have hfl : flats[i]? = some flats[i] := List.getElem?_eq_getElem hlt
+  obtain ⟨_, _, _, _, h5, _⟩ := statusOf_fields flats prevEpoch prevAtts currAtts i _ hfl
+  rw [h5, hfl]
+
+/-- one attestation component: the validator loop restricted to eligible validators, against the spec -/
+theorem component_fold (cfg : Config) (flats : List Validator) (prevEpoch : Nat) (prevAtts currAtts atts' : List ResolvedAtt)
+    (attestedSel : AttesterStatus → Bool) (stake total : Nat) (leak : Bool)
+    (hsel : ∀ i flat, flats[i]? = some flat →
+      (attestedSel (statusOf flats prevEpoch prevAtts currAtts i) && (statusOf flats prevEpoch prevAtts currAtts i).unslashed) =
+        (atts'.any (fun a => a.indices.contains i) && !flat.slashed))
+    (hstake : stake = total_balance_of cfg flats (unslashed_attesting_indices_of flats atts')) :
+    (List.range flats.length).foldl (fun d i =>
+        if (statusOf flats prevEpoch prevAtts currAtts i).eligible then
+          compStep (baseM cfg flats (integer_squareroot total)) (stake / cfg.EFFECTIVE_BALANCE_INCREMENT)
+            (total / cfg.EFFECTIVE_BALANCE_INCREMENT) leak
+            (fun _ => attestedSel (statusOf flats prevEpoch prevAtts currAtts i) &&
+              (statusOf flats prevEpoch prevAtts currAtts i).unslashed) d i
+        else d) (zeros flats.length, zeros flats.length) =
+      get_attestation_component_deltas_pure cfg flats prevEpoch total leak atts' := by
+  rw [foldl_filter (fun i => (statusOf flats prevEpoch prevAtts currAtts i).eligible), eligible_filter_eq]
+  unfold get_attestation_component_deltas_pure
+  apply foldl_congr_mem
+  intro d i hi
+  obtain ⟨flat, hfl, _⟩ := (mem_eligible_indices flats prevEpoch i).mp hi
+  rw [contains_uai flats atts' i flat hfl, ← hsel i flat hfl, hstake]
+  unfold compStep baseM base_reward_phase0_of eff_of
+  simp only []
+
+theorem rewardsStep_incl (cfg : Config) (flats : List Validator) (tI sI gI hI sq fd q : Nat) (leak : Bool)
+    (res : RewardsAndPenalties) (i : Nat) (st : AttesterStatus) :
+    (rewardsStep cfg flats tI sI gI hI sq fd q leak res i st).inclusionDelay =
+      if st.prevSource && st.unslashed then
+        (addAtPure (addAtPure res.inclusionDelay.1 (st.attestedProposer.getD 0) (baseM cfg flats sq i / cfg.PROPOSER_REWARD_QUOTIENT)) i
+          ((baseM cfg flats sq i - baseM cfg flats sq i / cfg.PROPOSER_REWARD_QUOTIENT) / st.inclusionDelay), res.inclusionDelay.2)
+      else res.inclusionDelay := by
+  obtain ⟨dl, pr, ps, pt, ph, cs, ct, ch, un, el⟩ := st
+  cases ps <;> cases pt <;> cases ph <;> cases un <;> cases el <;> cases leak <;> simp [rewardsStep, baseM]
+
+theorem rewardsStep_inact (cfg : Config) (flats : List Validator) (tI sI gI hI sq fd q : Nat) (leak : Bool)
+    (res : RewardsAndPenalties) (i : Nat) (st : AttesterStatus) :
+    (rewardsStep cfg flats tI sI gI hI sq fd q leak res i st).inactivity =
+      if st.eligible && leak then
+        (res.inactivity.1,
+          if !(st.prevTarget && st.unslashed) then
+            addAtPure (addAtPure res.inactivity.2 i
+              (BASE_REWARDS_PER_EPOCH * baseM cfg flats sq i - baseM cfg flats sq i / cfg.PROPOSER_REWARD_QUOTIENT)) i
+              ((flats.getD i default).effective_balance * fd / q)
+          else addAtPure res.inactivity.2 i
+              (BASE_REWARDS_PER_EPOCH * baseM cfg flats sq i - baseM cfg flats sq i / cfg.PROPOSER_REWARD_QUOTIENT))
+      else res.inactivity := by
+  obtain ⟨dl, pr, ps, pt, ph, cs, ct, ch, un, el⟩ := st
+  cases ps <;> cases pt <;> cases ph <;> cases un <;> cases el <;> cases leak <;> simp [rewardsStep, baseM]
+
+/-- the status of an unslashed attester records the first attestation with the least inclusion delay -/
+theorem statusOf_delay (flats : List Validator) (prevEpoch : Nat) (prevAtts currAtts : List ResolvedAtt) (i : Nat)
+    (flat : Validator) (hf : flats[i]? = some flat) (first : ResolvedAtt) (rest : List ResolvedAtt)
+    (hfr : prevAtts.filter (fun a => a.indices.contains i) = first :: rest) :
+    (statusOf flats prevEpoch prevAtts currAtts i).inclusionDelay = (min_inclusion first rest).inclusion_delay ∧
+    (statusOf flats prevEpoch prevAtts currAtts i).attestedProposer = some (min_inclusion first rest).proposer_index := by
+  simp only [statusOf, hf]
+  obtain ⟨_, _, _, _, _, c6, c7, _⟩ := cv_fields i currAtts (pv i prevAtts (init1 flat prevEpoch))
+  rw [c6, c7]
+  have := pv_delay_none i prevAtts (init1 flat prevEpoch) rfl
+  rw [hfr] at this
+  exact this
+
+theorem inclusion_fold (cfg : Config) (flats : List Validator) (prevEpoch : Nat) (prevAtts currAtts : List ResolvedAtt) (total : Nat) :
+    (List.range flats.length).foldl (fun (d : Deltas) i =>
+        if (statusOf flats prevEpoch prevAtts currAtts i).prevSource && (statusOf flats prevEpoch prevAtts currAtts i).unslashed then
+          (addAtPure (addAtPure d.1 ((statusOf flats prevEpoch prevAtts currAtts i).attestedProposer.getD 0)
+              (baseM cfg flats (integer_squareroot total) i / cfg.PROPOSER_REWARD_QUOTIENT)) i
+            ((baseM cfg flats (integer_squareroot total) i - baseM cfg flats (integer_squareroot total) i / cfg.PROPOSER_REWARD_QUOTIENT) /
+              (statusOf flats prevEpoch prevAtts currAtts i).inclusionDelay), d.2)
+        else d) (zeros flats.length, zeros flats.length) =
+      (get_inclusion_delay_deltas_pure cfg flats total prevAtts, zeros flats.length) := by
+  rw [foldl_filter (fun i => (statusOf flats prevEpoch prevAtts currAtts i).prevSource && (statusOf flats prevEpoch prevAtts currAtts i).unslashed)
+    (fun (d : Deltas) i => (addAtPure (addAtPure d.1 ((statusOf flats prevEpoch prevAtts currAtts i).attestedProposer.getD 0)
+              (baseM cfg flats (integer_squareroot total) i / cfg.PROPOSER_REWARD_QUOTIENT)) i
+            ((baseM cfg flats (integer_squareroot total) i - baseM cfg flats (integer_squareroot total) i / cfg.PROPOSER_REWARD_QUOTIENT) /
+              (statusOf flats prevEpoch prevAtts currAtts i).inclusionDelay), d.2))]
+  have hlist : (List.range flats.length).filter (fun i => (statusOf flats prevEpoch prevAtts currAtts i).prevSource &&
+      (statusOf flats prevEpoch prevAtts currAtts i).unslashed) = unslashed_attesting_indices_of flats prevAtts := by
+    unfold unslashed_attesting_indices_of
+    rw [List.filter_filter]
+    apply List.filter_congr
+    intro i hi
+    have hlt := List.mem_range.mp hi
+    have hfl : flats[i]? = some flats[i] := List.getElem?_eq_getElem hlt
+    obtain ⟨h1, _, _, h4, _⟩ := statusOf_fields flats prevEpoch prevAtts currAtts i _ hfl
+    rw [h1, h4]
+    simp [slashed_of, List.getD, hfl, Bool.and_comm]
+  rw [hlist]
+  unfold get_inclusion_delay_deltas_pure
+  -- carry the untouched penalties component along
+  have key : ∀ (l : List Nat) (r : List Nat), (∀ i ∈ l, i ∈ unslashed_attesting_indices_of flats prevAtts) →
+      l.foldl (fun (d : Deltas) i => (addAtPure (addAtPure d.1 ((statusOf flats prevEpoch prevAtts currAtts i).attestedProposer.getD 0)
+              (baseM cfg flats (integer_squareroot total) i / cfg.PROPOSER_REWARD_QUOTIENT)) i
+            ((baseM cfg flats (integer_squareroot total) i - baseM cfg flats (integer_squareroot total) i / cfg.PROPOSER_REWARD_QUOTIENT) /
+              (statusOf flats prevEpoch prevAtts currAtts i).inclusionDelay), d.2)) (r, zeros flats.length) =
+      (l.foldl (fun rewards index =>
+        match prevAtts.filter (fun a => a.indices.contains index) with
+        | [] => rewards
+        | first :: rest =>
+          let attestation := min_inclusion first rest
+          let rewards := addAtPure rewards attestation.proposer_index (proposer_reward_of cfg flats total index)
+          let max_attester_reward :=
+            base_reward_phase0_of cfg flats total index - proposer_reward_of cfg flats total index
+          addAtPure rewards index (max_attester_reward / attestation.inclusion_delay)) r, zeros flats.length) := by
+    intro l
+    induction l with
+    | nil => intro r _; rfl
+    | cons i rest ih =>
+      intro r hmem
+      simp only [List.foldl_cons]
+      have hi := hmem i (by simp)
+      unfold unslashed_attesting_indices_of at hi
+      simp only [List.mem_filter, List.mem_range] at hi
+      obtain ⟨⟨hlt, hany⟩, _⟩ := hi
+      have hfl : flats[i]? = some flats[i] := List.getElem?_eq_getElem hlt
+      -- the filtered list is not empty
+      cases hfr : prevAtts.filter (fun a => a.indices.contains i) with
+      | nil =>
+        exfalso
+        rw [List.any_eq_true] at hany
+        obtain ⟨a, ha, hc⟩ := hany
+        have : a ∈ prevAtts.filter (fun a => a.indices.contains i) := List.mem_filter.mpr ⟨ha, hc⟩
+        rw [hfr] at this; cases this
+      | cons first others =>
+        obtain ⟨hd, hp⟩ := statusOf_delay flats prevEpoch prevAtts currAtts i _ hfl first others hfr
+        simp only [hd, hp, Option.getD_some]
+        have := ih (addAtPure (addAtPure r (min_inclusion first others).proposer_index (proposer_reward_of cfg flats total i)) i
+          ((base_reward_phase0_of cfg flats total i - proposer_reward_of cfg flats total i) / (min_inclusion first others).inclusion_delay))
+          (fun j hj => hmem j (by simp [hj]))
+        rw [← this]
+        rfl
+  exact key _ _ (fun i hi => hi)
+
+theorem foldl_snd {α : Type} (g : List Nat → α → List Nat) (l : List α) (a b : List Nat) :
+    l.foldl (fun (d : Deltas) i => (d.1, g d.2 i)) (a, b) = (a, l.foldl g b) := by
+  induction l generalizing b with
+  | nil => rfl
+  | cons x xs ih => simp only [List.foldl_cons]; exact ih _
+
+theorem foldl_id {α β : Type} (l : List α) (b : β) : l.foldl (fun b _ => b) b = b := by
+  induction l with
+  | nil => rfl
+  | cons x xs ih => simpa using ih
+
+theorem inactivity_fold (cfg : Config) (flats : List Validator) (prevEpoch : Nat) (prevAtts currAtts : List ResolvedAtt)
+    (total fd : Nat) (leak : Bool) :
+    (List.range flats.length).foldl (fun (d : Deltas) i =>
+        if (statusOf flats prevEpoch prevAtts currAtts i).eligible && leak then
+          (d.1,
+            if !((statusOf flats prevEpoch prevAtts currAtts i).prevTarget && (statusOf flats prevEpoch prevAtts currAtts i).unslashed) then
+              addAtPure (addAtPure d.2 i
+                (BASE_REWARDS_PER_EPOCH * baseM cfg flats (integer_squareroot total) i -
+                  baseM cfg flats (integer_squareroot total) i / cfg.PROPOSER_REWARD_QUOTIENT)) i
+                ((flats.getD i default).effective_balance * fd / cfg.INACTIVITY_PENALTY_QUOTIENT)
+            else addAtPure d.2 i
+                (BASE_REWARDS_PER_EPOCH * baseM cfg flats (integer_squareroot total) i -
+                  baseM cfg flats (integer_squareroot total) i / cfg.PROPOSER_REWARD_QUOTIENT))
+        else d) (zeros flats.length, zeros flats.length) =
+      (zeros flats.length, get_inactivity_penalty_deltas_phase0_pure cfg flats prevEpoch total fd leak prevAtts) := by
+  unfold get_inactivity_penalty_deltas_phase0_pure
+  cases leak with
+  | false =>
+    simp only [Bool.and_false, Bool.false_eq_true, ↓reduceIte]
+    rw [foldl_id]
+  | true =>
+    simp only [Bool.and_true, ↓reduceIte]
+    rw [foldl_filter (fun i => (statusOf flats prevEpoch prevAtts currAtts i).eligible)
+      (fun (d : Deltas) i => (d.1,
+            if !((statusOf flats prevEpoch prevAtts currAtts i).prevTarget && (statusOf flats prevEpoch prevAtts currAtts i).unslashed) then
+              addAtPure (addAtPure d.2 i
+                (BASE_REWARDS_PER_EPOCH * baseM cfg flats (integer_squareroot total) i -
+                  baseM cfg flats (integer_squareroot total) i / cfg.PROPOSER_REWARD_QUOTIENT)) i
+                ((flats.getD i default).effective_balance * fd / cfg.INACTIVITY_PENALTY_QUOTIENT)
+            else addAtPure d.2 i
+                (BASE_REWARDS_PER_EPOCH * baseM cfg flats (integer_squareroot total) i -
+                  baseM cfg flats (integer_squareroot total) i / cfg.PROPOSER_REWARD_QUOTIENT))),
+      eligible_filter_eq]
+    refine Eq.trans (foldl_snd (fun (pen : List Nat) (i : Nat) =>
+            if !((statusOf flats prevEpoch prevAtts currAtts i).prevTarget && (statusOf flats prevEpoch prevAtts currAtts i).unslashed) then
+              addAtPure (addAtPure pen i
+                (BASE_REWARDS_PER_EPOCH * baseM cfg flats (integer_squareroot total) i -
+                  baseM cfg flats (integer_squareroot total) i / cfg.PROPOSER_REWARD_QUOTIENT)) i
+                ((flats.getD i default).effective_balance * fd / cfg.INACTIVITY_PENALTY_QUOTIENT)
+            else addAtPure pen i
+                (BASE_REWARDS_PER_EPOCH * baseM cfg flats (integer_squareroot total) i -
+                  baseM cfg flats (integer_squareroot total) i / cfg.PROPOSER_REWARD_QUOTIENT)) _ _ _) ?_
+    congr 1
+    apply foldl_congr_mem
+    intro pen i hi
+    obtain ⟨flat, hfl, _⟩ := (mem_eligible_indices flats prevEpoch i).mp hi
+    obtain ⟨_, h2, _, h4, _⟩ := statusOf_fields flats prevEpoch prevAtts currAtts i flat hfl
+    rw [contains_uai flats _ i flat hfl, any_matching_target, h2, h4]
+    unfold baseM base_reward_phase0_of proposer_reward_of base_reward_phase0_of eff_of
+    simp only []
+
+/-! ### Part D: putting the deltas together -/
+
+theorem any_imp (atts : List ResolvedAtt) (p q : ResolvedAtt → Bool) (h : ∀ a, p a = true → q a = true) :
+    atts.any p = true → atts.any q = true := by
+  intro hp
+  rw [List.any_eq_true] at hp ⊢
+  obtain ⟨a, ha, hpa⟩ := hp
+  exact ⟨a, ha, h a hpa⟩
+
+def addL (a b : List Nat) : List Nat := (List.range a.length).map fun i => a.getD i 0 + b.getD i 0
+
+theorem addL_length (a b : List Nat) : (addL a b).length = a.length := by simp [addL]
+
+theorem addL_getD (a b : List Nat) (i : Nat) (h : i < a.length) : (addL a b).getD i 0 = a.getD i 0 + b.getD i 0 := by
+  unfold addL
+  rw [List.getD_eq_getElem?_getD, List.getElem?_map, List.getElem?_range h]
+  rfl
+
+theorem deltasAdd_eq (a b : Deltas) : deltasAdd a b = (addL a.1 b.1, addL a.2 b.2) := rfl
+
+theorem zeros_getD (n i : Nat) : (zeros n).getD i 0 = 0 := by
+  unfold zeros
+  rw [List.getD_eq_getElem?_getD]
+  by_cases h : i < n
+  · simp [h]
+  · simp [h]
+
+theorem sum5 (n : Nat) (s t h c e : List Nat) :
+    addL (addL (addL (addL (addL (zeros n) s) t) h) c) e =
+      (List.range n).map (fun i => s.getD i 0 + t.getD i 0 + h.getD i 0 + c.getD i 0 + e.getD i 0) := by
+  have l0 : (zeros n).length = n := by simp [zeros]
+  have l1 := addL_length (zeros n) s
+  have l2 := addL_length (addL (zeros n) s) t
+  have l3 := addL_length (addL (addL (zeros n) s) t) h
+  have l4 := addL_length (addL (addL (addL (zeros n) s) t) h) c
+  rw [l0] at l1; rw [l1] at l2; rw [l2] at l3; rw [l3] at l4
+  have hdef : ∀ a b : List Nat, addL a b = (List.range a.length).map fun i => a.getD i 0 + b.getD i 0 := fun _ _ => rfl
+  rw [hdef (addL (addL (addL (addL (zeros n) s) t) h) c) e, l4]
+  apply List.map_congr_left
+  intro i hi
+  have hlt := List.mem_range.mp hi
+  rw [addL_getD _ _ i (by rw [l3]; exact hlt), addL_getD _ _ i (by rw [l2]; exact hlt),
+    addL_getD _ _ i (by rw [l1]; exact hlt), addL_getD _ _ i (by rw [l0]; exact hlt), zeros_getD]
+  omega
+
+/-- the five deltas of `AttestationRewardsAndPenalties` are the spec's five delta functions -/
+theorem attestationRewards_eq (cfg : Config) (flats : List Validator) (prevEpoch : Nat) (prevAtts currAtts : List ResolvedAtt)
+    (total fd : Nat) :
+    let d := computeEpochAttesterDataPhase0 cfg flats prevEpoch prevAtts currAtts
+    let leak := decide (fd > cfg.MIN_EPOCHS_TO_INACTIVITY_PENALTY)
+    let r := attestationRewardsAndPenalties cfg flats d total fd cfg.INACTIVITY_PENALTY_QUOTIENT
+    r.source = get_attestation_component_deltas_pure cfg flats prevEpoch total leak prevAtts ∧
+    r.target = get_attestation_component_deltas_pure cfg flats prevEpoch total leak (matching_target_atts prevAtts) ∧
+    r.head = get_attestation_component_deltas_pure cfg flats prevEpoch total leak (matching_head_atts prevAtts) ∧
+    r.inclusionDelay = (get_inclusion_delay_deltas_pure cfg flats total prevAtts, zeros flats.length) ∧
+    r.inactivity = (zeros flats.length, get_inactivity_penalty_deltas_phase0_pure cfg flats prevEpoch total fd leak prevAtts) := by
+  intro d leak r
+  have hlen : d.statuses.length = flats.length := statuses_length cfg flats prevEpoch prevAtts currAtts
+  have hget : ∀ i, d.statuses.getD i default = statusOf flats prevEpoch prevAtts currAtts i :=
+    statuses_getD cfg flats prevEpoch prevAtts currAtts
+  have fields := statusOf_fields flats prevEpoch prevAtts currAtts
+  -- stakes
+  have hsrc : d.prevSourceStake = total_balance_of cfg flats (unslashed_attesting_indices_of flats prevAtts) := by
+    apply stake_eq cfg flats prevEpoch prevAtts currAtts _ prevAtts
+    intro i flat hfl
+    obtain ⟨h1, _, _, h4, _⟩ := fields i flat hfl
+    rw [h1, h4]
+  have htgt : d.prevTargetStake = total_balance_of cfg flats (unslashed_attesting_indices_of flats (matching_target_atts prevAtts)) := by
+    apply stake_eq cfg flats prevEpoch prevAtts currAtts _ (matching_target_atts prevAtts)
+    intro i flat hfl
+    obtain ⟨h1, h2, _, h4, _⟩ := fields i flat hfl
+    rw [h1, h2, h4, any_matching_target]
+    cases hps : prevAtts.any (fun a => a.indices.contains i)
+    · have : (prevAtts.any fun a => a.indices.contains i && a.matching_target) = false := by
+        cases hpt : prevAtts.any (fun a => a.indices.contains i && a.matching_target)
+        · rfl
+        · have := any_imp prevAtts _ (fun a => a.indices.contains i) (fun a ha => by
+            simp only [Bool.and_eq_true] at ha; exact ha.1) hpt
+          rw [hps] at this; cases this
+      rw [this]; simp
+    · cases flat.slashed <;> simp
+  have hhead : d.prevHeadStake = total_balance_of cfg flats (unslashed_attesting_indices_of flats (matching_head_atts prevAtts)) := by
+    apply stake_eq cfg flats prevEpoch prevAtts currAtts _ (matching_head_atts prevAtts)
+    intro i flat hfl
+    obtain ⟨h1, h2, h3, h4, _⟩ := fields i flat hfl
+    rw [h1, h2, h3, h4, any_matching_head]
+    cases hph : prevAtts.any (fun a => a.indices.contains i && (a.matching_target && a.matching_head))
+    · simp
+    · have hps := any_imp prevAtts _ (fun a => a.indices.contains i) (fun a ha => by
+        simp only [Bool.and_eq_true] at ha; exact ha.1) hph
+      have hpt := any_imp prevAtts _ (fun a => a.indices.contains i && a.matching_target) (fun a ha => by
+        simp only [Bool.and_eq_true] at ha ⊢; exact ⟨ha.1, ha.2.1⟩) hph
+      rw [hps, hpt]; cases flat.slashed <;> simp
+  -- rewrite the loop over `d.statuses` as a loop over `statusOf`
+  have hr : r = (List.range flats.length).foldl (fun res i =>
+      rewardsStep cfg flats (total / cfg.EFFECTIVE_BALANCE_INCREMENT) (d.prevSourceStake / cfg.EFFECTIVE_BALANCE_INCREMENT)
+        (d.prevTargetStake / cfg.EFFECTIVE_BALANCE_INCREMENT) (d.prevHeadStake / cfg.EFFECTIVE_BALANCE_INCREMENT)
+        (integer_squareroot total) fd cfg.INACTIVITY_PENALTY_QUOTIENT leak res i (statusOf flats prevEpoch prevAtts currAtts i))
+      ⟨(zeros flats.length, zeros flats.length), (zeros flats.length, zeros flats.length), (zeros flats.length, zeros flats.length),
+       (zeros flats.length, zeros flats.length), (zeros flats.length, zeros flats.length)⟩ := by
+    show attestationRewardsAndPenalties cfg flats d total fd cfg.INACTIVITY_PENALTY_QUOTIENT = _
+    unfold attestationRewardsAndPenalties
+    simp only [hlen, hget]
+    rfl
+  refine ⟨?_, ?_, ?_, ?_, ?_⟩
+  · rw [hr]
+    refine Eq.trans (foldl_proj (·.source) _ (fun (dl : Deltas) i =>
+        if (statusOf flats prevEpoch prevAtts currAtts i).eligible then
+          compStep (baseM cfg flats (integer_squareroot total)) (d.prevSourceStake / cfg.EFFECTIVE_BALANCE_INCREMENT)
+            (total / cfg.EFFECTIVE_BALANCE_INCREMENT) leak
+            (fun _ => (statusOf flats prevEpoch prevAtts currAtts i).prevSource && (statusOf flats prevEpoch prevAtts currAtts i).unslashed) dl i
+        else dl)
+      (fun res i => rewardsStep_source cfg flats _ _ _ _ _ _ _ _ res i _) _ _) ?_
+    exact component_fold cfg flats prevEpoch prevAtts currAtts prevAtts (·.prevSource) d.prevSourceStake total leak
+      (fun i flat hfl => by obtain ⟨h1, _, _, h4, _⟩ := fields i flat hfl; rw [h1, h4]) hsrc
+  · rw [hr]
+    refine Eq.trans (foldl_proj (·.target) _ (fun (dl : Deltas) i =>
+        if (statusOf flats prevEpoch prevAtts currAtts i).eligible then
+          compStep (baseM cfg flats (integer_squareroot total)) (d.prevTargetStake / cfg.EFFECTIVE_BALANCE_INCREMENT)
+            (total / cfg.EFFECTIVE_BALANCE_INCREMENT) leak
+            (fun _ => (statusOf flats prevEpoch prevAtts currAtts i).prevTarget && (statusOf flats prevEpoch prevAtts currAtts i).unslashed) dl i
+        else dl)
+      (fun res i => rewardsStep_target cfg flats _ _ _ _ _ _ _ _ res i _) _ _) ?_
+    exact component_fold cfg flats prevEpoch prevAtts currAtts (matching_target_atts prevAtts) (·.prevTarget) d.prevTargetStake total leak
+      (fun i flat hfl => by obtain ⟨_, h2, _, h4, _⟩ := fields i flat hfl; rw [h2, h4, any_matching_target]) htgt
+  · rw [hr]
+    refine Eq.trans (foldl_proj (·.head) _ (fun (dl : Deltas) i =>
+        if (statusOf flats prevEpoch prevAtts currAtts i).eligible then
+          compStep (baseM cfg flats (integer_squareroot total)) (d.prevHeadStake / cfg.EFFECTIVE_BALANCE_INCREMENT)
+            (total / cfg.EFFECTIVE_BALANCE_INCREMENT) leak
+            (fun _ => (statusOf flats prevEpoch prevAtts currAtts i).prevHead && (statusOf flats prevEpoch prevAtts currAtts i).unslashed) dl i
+        else dl)
+      (fun res i => rewardsStep_head cfg flats _ _ _ _ _ _ _ _ res i _) _ _) ?_
+    exact component_fold cfg flats prevEpoch prevAtts currAtts (matching_head_atts prevAtts) (·.prevHead) d.prevHeadStake total leak
+      (fun i flat hfl => by obtain ⟨_, _, h3, h4, _⟩ := fields i flat hfl; rw [h3, h4, any_matching_head]) hhead
+  · rw [hr]
+    refine Eq.trans (foldl_proj (·.inclusionDelay) _ (fun (dl : Deltas) i =>
+        if (statusOf flats prevEpoch prevAtts currAtts i).prevSource && (statusOf flats prevEpoch prevAtts currAtts i).unslashed then
+          (addAtPure (addAtPure dl.1 ((statusOf flats prevEpoch prevAtts currAtts i).attestedProposer.getD 0)
+              (baseM cfg flats (integer_squareroot total) i / cfg.PROPOSER_REWARD_QUOTIENT)) i
+            ((baseM cfg flats (integer_squareroot total) i - baseM cfg flats (integer_squareroot total) i / cfg.PROPOSER_REWARD_QUOTIENT) /
+              (statusOf flats prevEpoch prevAtts currAtts i).inclusionDelay), dl.2)
+        else dl)
+      (fun res i => rewardsStep_incl cfg flats _ _ _ _ _ _ _ _ res i _) _ _) ?_
+    exact inclusion_fold cfg flats prevEpoch prevAtts currAtts total
+  · rw [hr]
+    refine Eq.trans (foldl_proj (·.inactivity) _ (fun (dl : Deltas) i =>
+        if (statusOf flats prevEpoch prevAtts currAtts i).eligible && leak then
+          (dl.1,
+            if !((statusOf flats prevEpoch prevAtts currAtts i).prevTarget && (statusOf flats prevEpoch prevAtts currAtts i).unslashed) then
+              addAtPure (addAtPure dl.2 i
+                (BASE_REWARDS_PER_EPOCH * baseM cfg flats (integer_squareroot total) i -
+                  baseM cfg flats (integer_squareroot total) i / cfg.PROPOSER_REWARD_QUOTIENT)) i
+                ((flats.getD i default).effective_balance * fd / cfg.INACTIVITY_PENALTY_QUOTIENT)
+            else addAtPure dl.2 i
+                (BASE_REWARDS_PER_EPOCH * baseM cfg flats (integer_squareroot total) i -
+                  baseM cfg flats (integer_squareroot total) i / cfg.PROPOSER_REWARD_QUOTIENT))
+        else dl)
+      (fun res i => rewardsStep_inact cfg flats _ _ _ _ _ _ _ _ res i _) _ _) ?_
+    exact inactivity_fold cfg flats prevEpoch prevAtts currAtts total fd leak
+
+theorem attestationRewards_eq' (cfg : Config) (flats : List Validator) (prevEpoch : Nat) (prevAtts currAtts : List ResolvedAtt)
+    (total fd : Nat) (r : RewardsAndPenalties)
+    (hr : r = attestationRewardsAndPenalties cfg flats (computeEpochAttesterDataPhase0 cfg flats prevEpoch prevAtts currAtts)
+      total fd cfg.INACTIVITY_PENALTY_QUOTIENT) :
+    r.source = get_attestation_component_deltas_pure cfg flats prevEpoch total (decide (fd > cfg.MIN_EPOCHS_TO_INACTIVITY_PENALTY)) prevAtts ∧
+    r.target = get_attestation_component_deltas_pure cfg flats prevEpoch total (decide (fd > cfg.MIN_EPOCHS_TO_INACTIVITY_PENALTY)) (matching_target_atts prevAtts) ∧
+    r.head = get_attestation_component_deltas_pure cfg flats prevEpoch total (decide (fd > cfg.MIN_EPOCHS_TO_INACTIVITY_PENALTY)) (matching_head_atts prevAtts) ∧
+    r.inclusionDelay = (get_inclusion_delay_deltas_pure cfg flats total prevAtts, zeros flats.length) ∧
+    r.inactivity = (zeros flats.length, get_inactivity_penalty_deltas_phase0_pure cfg flats prevEpoch total fd
+      (decide (fd > cfg.MIN_EPOCHS_TO_INACTIVITY_PENALTY)) prevAtts) := by
+  subst hr
+  exact attestationRewards_eq cfg flats prevEpoch prevAtts currAtts total fd
+
+theorem rewards_assemble (n : Nat) (balances : List Nat) (r : RewardsAndPenalties) (s t h : Deltas) (incl inact : List Nat)
+    (h1 : r.source = s) (h2 : r.target = t) (h3 : r.head = h) (h4 : r.inclusionDelay = (incl, zeros n))
+    (h5 : r.inactivity = (zeros n, inact)) (hlen : balances.length = n) :
+    applyDeltas balances
+      (deltasAdd (deltasAdd (deltasAdd (deltasAdd (deltasAdd (zeros n, zeros n) r.source) r.target) r.head) r.inclusionDelay) r.inactivity) =
+    apply_deltas_pure n balances
+      ((List.range n).map (fun i => s.1.getD i 0 + t.1.getD i 0 + h.1.getD i 0 + incl.getD i 0),
+       (List.range n).map (fun i => s.2.getD i 0 + t.2.getD i 0 + h.2.getD i 0 + inact.getD i 0)) := by
+  rw [h1, h2, h3, h4, h5, applyDeltas_eq, hlen]
+  simp only [deltasAdd_eq, sum5]
+  congr 2
+  · apply List.map_congr_left
+    intro i _
+    rw [zeros_getD]; omega
+  · apply List.map_congr_left
+    intro i _
+    rw [zeros_getD]; omega
+
+theorem rewards_phase0 (cfg : Config) (flats : List Validator) (prevEpoch curEpoch : Nat) (prevAtts currAtts : List ResolvedAtt)
+    (fd : Nat) (balances : List Nat) (hlen : balances.length = flats.length) :
+    processEpochRewardsAndPenaltiesPhase0 cfg flats (computeEpochAttesterDataPhase0 cfg flats prevEpoch prevAtts currAtts)
+        (total_active_balance_of cfg flats curEpoch) fd cfg.INACTIVITY_PENALTY_QUOTIENT balances =
+      process_rewards_and_penalties_phase0_pure cfg flats balances prevEpoch curEpoch fd
+        (decide (fd > cfg.MIN_EPOCHS_TO_INACTIVITY_PENALTY)) prevAtts := by
+  unfold processEpochRewardsAndPenaltiesPhase0 process_rewards_and_penalties_phase0_pure get_attestation_deltas_pure
+  simp only [statuses_length]
+  generalize hr : attestationRewardsAndPenalties cfg flats (computeEpochAttesterDataPhase0 cfg flats prevEpoch prevAtts currAtts)
+      (total_active_balance_of cfg flats curEpoch) fd cfg.INACTIVITY_PENALTY_QUOTIENT = r
+  obtain ⟨h1, h2, h3, h4, h5⟩ := attestationRewards_eq' cfg flats prevEpoch prevAtts currAtts _ fd r hr.symm
+  exact rewards_assemble flats.length balances r _ _ _ _ _ h1 h2 h3 h4 h5 hlen
+
+/-- `currentTargetStake` for phase0 -/
+theorem targetStakes_phase0 (cfg : Config) (flats : List Validator) (prevEpoch : Nat) (prevAtts currAtts : List ResolvedAtt) :
+    ((computeEpochAttesterDataPhase0 cfg flats prevEpoch prevAtts currAtts).prevTargetStake,
+     (computeEpochAttesterDataPhase0 cfg flats prevEpoch prevAtts currAtts).currTargetStake) =
+      target_balances_phase0_pure cfg flats prevAtts currAtts := by
+  have fields := statusOf_fields flats prevEpoch prevAtts currAtts
+  unfold target_balances_phase0_pure
+  congr 1
+  · apply stake_eq cfg flats prevEpoch prevAtts currAtts _ (matching_target_atts prevAtts)
+    intro i flat hfl
+    obtain ⟨h1, h2, _, h4, _⟩ := fields i flat hfl
+    rw [h1, h2, h4, any_matching_target]
+    cases hpt : prevAtts.any (fun a => a.indices.contains i && a.matching_target)
+    · simp
+    · have hps := any_imp prevAtts _ (fun a => a.indices.contains i) (fun a ha => by
+        simp only [Bool.and_eq_true] at ha; exact ha.1) hpt
+      rw [hps]; cases flat.slashed <;> simp
+  · apply stake_eq cfg flats prevEpoch prevAtts currAtts _ (matching_target_atts currAtts)
+    intro i flat hfl
+    obtain ⟨_, _, _, h4, _, h6⟩ := fields i flat hfl
+    rw [h6, h4, any_matching_target]
+
 end Zrnt.Proofs.Lemmas
